@@ -225,7 +225,7 @@ pub fn adc_mut() -> impl Strategy<Value = AdcMut> {
         2 => (0u8..6, any::<u8>()).prop_map(|(i, v)| AdcMut::MacByte(i, v)),
         1 => Just(AdcMut::MacZero),
         1 => any::<u8>().prop_map(AdcMut::OddByte),
-        4 => (prop_oneof![Just(0u16), Just(1), Just(62), Just(63), Just(64), Just(65), 0u16..400], any::<bool>()).prop_map(|(n, fix)| AdcMut::Resize { n, fix }),
+        4 => (prop_oneof![4 => Just(0u16), 4 => Just(1), 4 => Just(62), 4 => Just(63), 4 => Just(64), 4 => Just(65), 4 => 0u16..400, 1 => 65_529u16..=65_535], any::<bool>()).prop_map(|(n, fix)| AdcMut::Resize { n, fix }),
         1 => prop_oneof![Just(0u16), Just(64), Just(100), 0u16..700].prop_map(|extra| AdcMut::Huge { extra }),
         3 => prop_oneof![Just(1i16), Just(-1), any::<i16>()].prop_map(AdcMut::BaselineDelta),
         2 => Just(AdcMut::BaselineTrunc),
@@ -734,6 +734,8 @@ pub enum TrgMut {
     SameFlip { a: u8, b: u8, bit: u8, width: u8 },
     /// one word repeated in another place
     CopyWord { from: u8, to: u8 },
+    /// header and footer repeat (output counter + dh) and (output counter + df)
+    HeaderFooterRel { dh: i8, df: i8 },
 }
 pub fn trg_mut() -> impl Strategy<Value = TrgMut> {
     prop_oneof![
@@ -743,6 +745,7 @@ pub fn trg_mut() -> impl Strategy<Value = TrgMut> {
         2 => prop_oneof![Just(-80i32), Just(-1), Just(1), Just(4), -80i32..120].prop_map(TrgMut::LenDelta),
         3 => (0u8..20, 0u8..20, 0u8..32, prop_oneof![Just(1u8), Just(8), 1u8..=32]).prop_map(|(a, b, bit, width)| TrgMut::SameFlip { a, b, bit, width }),
         1 => (0u8..20, 0u8..20).prop_map(|(from, to)| TrgMut::CopyWord { from, to }),
+        2 => (-3i8..=3, -3i8..=3).prop_map(|(dh, df)| TrgMut::HeaderFooterRel { dh, df }),
     ]
 }
 pub fn counter_word(i: u8) -> usize {
@@ -770,6 +773,11 @@ pub fn apply_trg_mut(m: &mut TrgModel, mu: &TrgMut) {
             }
         }
         TrgMut::CopyWord { from, to } => m.words[to as usize % 20] = m.words[from as usize % 20],
+        TrgMut::HeaderFooterRel { dh, df } => {
+            let o = m.words[trg::W_OUTPUT];
+            m.words[trg::W_HEADER] = 0x8000_0000 | (o.wrapping_add(dh as u32) & 0x0FFF_FFFF);
+            m.words[trg::W_FOOTER] = 0xE000_0000 | (o.wrapping_add(df as u32) & 0x0FFF_FFFF);
+        }
     }
 }
 #[derive(Clone, Debug, Serialize, Deserialize)]
